@@ -21,6 +21,8 @@ def gen_cases(rng, tier):
     for v in bnd:
         yield case("vi_write", [v]), ["write", "boundary"]
         yield case("vi_try", [v]), ["try", "boundary"]
+    # the empty input: the truncation of every encoding to zero bytes must fail with unexpected-EOF like the longer truncations
+    yield case("vi_read", []), ["read", "truncation", "empty-input"]
     for b in range(256):
         yield case("vi_read", [b]), ["read", "one-byte"]
         yield case("vi_read", [b, rng.randrange(256)]), ["read", "one-byte"]
@@ -49,7 +51,7 @@ def nontrivial(line, tags):
 
 
 def min_classes(tier):
-    return {"truncation": 100, "one-byte": 256, "boundary": 20, "overlong": 128}
+    return {"truncation": 100, "one-byte": 256, "boundary": 20, "overlong": 128, "empty-input": 1}
 
 
 def oracle(line, impl_line):
